@@ -295,7 +295,8 @@ func runC04(c *core.Ctx) {
 	c.Rule("C04.errside", "(b)(g): after a failed left evaluation the entry returns ErrSide{error: that error, IsLeft:true} and nothing else; after a failed right one IsRight:true only; no operand value is returned on an error path")
 	c.Rule("C04.result", "(c)(d)(e): on success the entry returns resultContainer{<Kind>Value: term, Is<Kind>Value: true} where Kind is returnType's kind and term is the key's Go operator applied to left and right, converting exactly the int side of a mixed int/float pair")
 	c.Rule("C04.shortcircuit", "(f): AND returns false without evaluating the right operand when the left is false, OR returns true when the left is true; otherwise the right operand decides")
-	c.Rule("C04.respec", "A1: EvalBinaryNode.eval: nil function ⇒ error without a call; a type-guard error rewrites exactly the side(s) named by the error with ActualType, then re-looks-up the function and retries (or returns the error if none); any other outcome is returned unchanged")
+	c.Rule("C04.respec", "A1: EvalBinaryNode.eval: a node without an evaluation function refreshes the operand types from the current scope and looks the function up again before reporting a mismatch (the answer for a point never depends on earlier points' types); a type-guard error rewrites exactly the side(s) named by the error with ActualType, re-looks-up and retries unconditionally; any other outcome is returned unchanged")
+	c.Rule("C04.arity", "A1: EvalFunctionNode.Type rejects a call as having too many arguments exactly when the number of arguments exceeds the size of the signature domain (a call with exactly that many is type-checked against the signatures); every argument's type is written at its own index")
 	c.Rule("C04.dynamic", "A2: evaluateDynamicNode stores both operand types obtained from Type() before lookupEvaluationFn, and looks up before eval; a Type() error is returned with the right side flag")
 	c.Rule("C04.lookup", "A3: lookupEvaluationFn indexes evaluationFuncs with operationKey{operator: n.operator, leftType: n.leftType, rightType: n.rightType}; Type() of a dynamic node looks binaryConstantTypes up with the same three fields and never stores constReturnType")
 	c.Rule("C04.sigcheck", "A2: in EvalPredicate and expression.Eval the Type(scope) call precedes every Eval* call and its error is returned")
@@ -466,6 +467,7 @@ func runC04(c *core.Ctx) {
 	}
 
 	c04Respec(c, pkg)
+	c04Arity(c, pkg)
 	c04SigCheck(c)
 	c04BoolSpec(c, pkg)
 	ruleCopyReset(c, "C04.copyreset")
@@ -985,4 +987,70 @@ func c04BoolSpec(c *core.Ctx, pkg *packages.Package) {
 			return "eval"
 		}})
 	_ = info
+}
+
+func c04Arity(c *core.Ctx, pkg *packages.Package) {
+	fn := c.Need("C04.arity", "tick/stateful", "EvalFunctionNode", "Type")
+	if fn == nil {
+		return
+	}
+	eng := &an.Engine{Prog: c.P, ElemKeys: true,
+		TrackStore: func(lhs ast.Expr, key string) string {
+			if ix, ok := ast.Unparen(lhs).(*ast.IndexExpr); ok {
+				if tv, ok := pkg.TypesInfo.Types[ix.X]; ok {
+					if named := core.NamedOf(tv.Type); named != nil && named.Obj().Name() == "Domain" {
+						return "domain"
+					}
+				}
+			}
+			return ""
+		},
+		Classify: func(a an.Atom) (string, bool) {
+			if a.Op == token.LSS && strings.HasPrefix(a.L, "len(") && strings.HasPrefix(a.R, "len(") {
+				switch {
+				case strings.Contains(a.R, ".argsEvaluators") && !strings.Contains(a.L, ".argsEvaluators"):
+					return "exceeds", false // len(domain) < len(args)
+				case strings.Contains(a.L, ".argsEvaluators"):
+					return "fewer", false // len(args) < len(domain): not the arity guard
+				}
+			}
+			return "", false
+		}}
+	paths, err := eng.Run(fn)
+	if err != nil {
+		c.Undecided("C04.arity", "EvalFunctionNode.Type", fn.Decl.Pos(), "%v", err)
+		return
+	}
+	good, seenErr, seenOK := len(paths) > 0, false, false
+	for _, p := range paths {
+		if len(p.Rets) != 2 {
+			continue
+		}
+		tooMany := strings.Contains(p.Rets[1], "too many arguments")
+		v, dec := p.Assign()["exceeds"]
+		switch {
+		case tooMany:
+			seenErr = true
+			if !dec || !v {
+				good = false
+				c.Fail("C04.arity", "EvalFunctionNode.Type#too-many", p.RetPos, "`too many arguments` is reported on a path where the argument count is not established to exceed the domain size (%s): a call with exactly the maximum number of arguments (strReplace) is rejected before its signature is looked at", p.Cond())
+			}
+		case p.Rets[1] == "nil":
+			seenOK = true
+			if !dec || v {
+				good = false
+				c.Fail("C04.arity", "EvalFunctionNode.Type#guard", p.RetPos, "a type is returned on a path that did not establish that the arguments fit the domain (%s)", p.Cond())
+			}
+		}
+		for _, e := range p.Events {
+			if e.Kind == "store" && e.Name == "domain" && !strings.HasSuffix(e.Recv, "]") {
+				good = false
+			}
+		}
+	}
+	if good && seenErr && seenOK {
+		c.Ok("C04.arity", "EvalFunctionNode.Type")
+	} else if good {
+		c.Fail("C04.arity", "EvalFunctionNode.Type", fn.Decl.Pos(), "the arity guard or the success path was not found (guard %v, success %v)", seenErr, seenOK)
+	}
 }
